@@ -58,6 +58,9 @@ def tokOfName : String → Option TokenType
   | "VariableToken" => some .variable
   | _ => none
 
+/-- equal as sets: the order of the cases of a Go type switch / rune switch carries no meaning -/
+def sameSet {α} [BEq α] (a b : List α) : Bool := a.all (b.contains ·) && b.all (a.contains ·)
+
 def allTokens : List TokenType := [.unknown, .«end», .openBrace, .closeBrace, .openParen, .closeParen, .openSqBrace, .closeSqBrace, .add, .and, .arrayWildcard, .assign, .asterisk, .colon, .comma, .divide, .dot, .equal, .filter, .flatten, .«in», .greater, .greaterOrEqual, .integerDivide, .less, .lessOrEqual, .«let», .modulo, .multiply, .not, .notEqual, .objectWildcard, .or, .pipe, .subtract, .current, .expression, .integerLiteral, .jsonLiteral, .quotedIdentifier, .root, .unquotedIdentifier, .stringLiteral, .variable]
 
 set_option maxRecDepth 100000
@@ -214,7 +217,7 @@ theorem evaluate_cat_tie :
 
 /-- [C05, C14] the numeric type switches list the recorded kinds and call the recorded conversions: in particular the
     `json.Number`, integer and decimal cases of `toDecimal` call no float-typed function -/
-theorem kind_cases : (kindCases == [
+theorem kind_cases : sameSet kindCases [
   ("toDecimal", ["decimal128.Decimal"], []),
   ("toDecimal", ["json.Number"], ["decimal128.Parse", "v.String"]),
   ("toDecimal", ["float32"], ["decimal128.FromFloat32"]),
@@ -280,7 +283,7 @@ theorem kind_cases : (kindCases == [
   ("typeName", ["string"], []),
   ("typeName", ["nil"], []),
   ("toNumber", ["decimal128.Decimal", "json.Number", "float32", "float64", "int8", "int16", "int32", "int64", "int", "uint8", "uint16", "uint32", "uint64", "uint"], []),
-  ("toNumber", ["string"], ["isJSONNumber", "d.UnmarshalJSON", "[]byte"])]) = true := by decide
+  ("toNumber", ["string"], ["isJSONNumber", "d.UnmarshalJSON", "[]byte"])] = true := by decide
 
 /-- [C12] the node types a string slice is recognised by -/
 theorem slice_nodes : (sliceNodes == ["SliceNode", "SliceCurrentNode", "SliceStepNode", "SliceStepCurrentNode"]) = true := by decide
@@ -337,7 +340,7 @@ theorem expression_fields : (expressionFields == [("node", "parser.Node")]) = tr
 
 /-- [C04, C10, C16] the rune switch of `Lexer.Next` and the character-class conditions of its scanning helpers are the
     recorded ones (any added, removed or reordered case or look-ahead breaks this) -/
-theorem lexer_cases_recorded : (lexerCases == [
+theorem lexer_cases_recorded : sameSet lexerCases [
   ([34], [], [], ["quotedIdentifier"]),
   ([36], [], [], ["variable"]),
   ([37], [], ["ModuloToken"], []),
@@ -370,10 +373,10 @@ theorem lexer_cases_recorded : (lexerCases == [
   ([], [], [], ["r >= '0' && r <= '9'"]),
   ([], [], [], ["numberLiteral"]),
   ([], [], [], ["r >= 'A' && r <= 'Z' || r >= 'a' && r <= 'z' || r == '_'"]),
-  ([], [], [], ["unquotedIdentifier"])]) = true := by decide
+  ([], [], [], ["unquotedIdentifier"])] = true := by decide
 
 /-- [C04, C16] conditions of the scanning helpers as recorded -/
-theorem lexer_conds_recorded : (lexerConds == [
+theorem lexer_conds_recorded : sameSet lexerConds [
   ("numberLiteral", "err == nil && (r >= '0' && r <= '9')"),
   ("unquotedIdentifier", "err == nil && (r >= '0' && r <= '9' || r >= 'A' && r <= 'Z' || r >= 'a' && r <= 'z' || r == '_')"),
   ("unquotedIdentifier", "case \"in\""),
@@ -393,7 +396,7 @@ theorem lexer_conds_recorded : (lexerConds == [
   ("stringLiteral", "r == '\\\\'"),
   ("stringLiteral", "err != nil"),
   ("decodeRune", "sz == 0"),
-  ("decodeRune", "r == utf8.RuneError && sz == 1")]) = true := by decide
+  ("decodeRune", "r == utf8.RuneError && sz == 1")] = true := by decide
 
 /-- inputs that exercise every case of the switch: (input, token type, token length) -/
 def lexProbes : List (Bytes × TokenType × Nat) := [
